@@ -63,6 +63,7 @@ type mockRevocation struct {
 	vec            []revresult.Result // per certificate (leaf first); nil => all OK
 	method         revresult.RevocationMethod
 	srvErr         bool
+	mirror         bool // with srvErr: the error belongs to a second, unreachable server; the verdict came from another one
 	err            error
 	errWithResults bool // the error comes together with (harmless-looking) per-certificate results
 	calls          []revCall
@@ -88,6 +89,14 @@ func (m *mockRevocation) results(chain []*x509.Certificate) []*revresult.CertRev
 			sr := revresult.NewServerResult(r, "http://mock.invalid/rev", serr)
 			sr.RevocationMethod = sm
 			cr.ServerResults = []*revresult.ServerResult{sr}
+			if m.srvErr && m.mirror {
+				// the failing server is an unreachable MIRROR (its own result: unknown); another server answered with the verdict
+				bad := revresult.NewServerResult(revresult.ResultUnknown, "http://mirror.mock.invalid/rev", serr)
+				bad.RevocationMethod = sm
+				good := revresult.NewServerResult(r, "http://mock.invalid/rev", nil)
+				good.RevocationMethod = sm
+				cr.ServerResults = []*revresult.ServerResult{bad, good}
+			}
 		}
 		out[i] = cr
 	}
@@ -133,6 +142,7 @@ func (v deprecatedClient) Validate(chain []*x509.Certificate, signingTime time.T
 // ---- plugins -------------------------------------------------------------------
 
 type mockPlugin struct {
+	nilEmpty       bool // empty parts of the answer are nil, not empty
 	mu             sync.Mutex
 	name           string
 	version        string
@@ -182,6 +192,15 @@ func (p *mockPlugin) VerifySignature(ctx context.Context, req *pf.VerifySignatur
 	}
 	// a plugin may list anything JSON can express
 	resp.ProcessedAttributes = append(resp.ProcessedAttributes, p.processedExtra...)
+	if p.nilEmpty {
+		// what is empty is absent from the answer (JSON null / no member at all) instead of being an empty list or object
+		if len(resp.ProcessedAttributes) == 0 {
+			resp.ProcessedAttributes = nil
+		}
+		if len(resp.VerificationResults) == 0 {
+			resp.VerificationResults = nil
+		}
+	}
 	return resp, nil
 }
 
